@@ -556,6 +556,7 @@ class C13(core.Check):
         "ints), micro (the lattice with 0.05..0.2 mm cells), rejected (link candidates whose follower is no grid point "
         "are refused, the error is caught, then optimize), "
         "grow (two or three optimize() calls on one optimizer, another clamp - sometimes leading a translation link - added before each later call; judged per call), "
+        "foreign (the clamp function raises RuntimeError in a chosen evaluation of a chosen optimize_clamp call: propagates before backport), "
         "nearideal (millimetre-sized sketches with only the clamped vertices 1e-5..9e-5 of a cell off: negative summed quality), "
         "boundary (0 iterations, no clamps, auto_optimize; 0 iterations with the report on), defaults (optimize() without "
         "arguments), driver (no optimiser run: a real IterationDriver fed with begin / end_iteration calls - limits -1..20, "
@@ -588,8 +589,9 @@ class C13(core.Check):
         "initial state is T_C13_noworse_general. Round 6: the driver / reporter model (IterationDriver, ClampOptimizationData, "
         "summary block) is over Q, the implementation computes in floats (compared to 1e-9 relative, the printed summary to 4 "
         "digits); T_C13_tie_statements is a textual snapshot of the control methods (trip-wire), the other T_C13_tie_* are "
-        "semantic; additions between two optimize() calls are covered by T_C13_frame_phases / T_C13_noworse_phases with 'every phase is "
-        "entered in a rest state' as hypothesis; exceptions other than ValueError inside the minimiser are not modelled."
+        "semantic; additions between two optimize() calls: T_C13_noworse_add_clamp for a clamp on an unmoved vertex, T_C13_noworse_phases "
+        "with 'every phase is entered in a rest state' as hypothesis otherwise; an exception other than ValueError is modelled "
+        "when raised in an evaluation of optimize_clamp (T_C13_abort_*), not inside a sensitivity probe or a restoring update."
     )
 
     # ------------------------------------------------------------------ generators
@@ -878,14 +880,14 @@ class C13(core.Check):
         case.update({"live": True, "calls": calls, "method": calls[-1][0], "max_iterations": calls[-1][1]})
         return case
 
-    def _gen_grow(self, rng: random.Random) -> dict:
+    def _gen_grow(self, rng: random.Random, tier: str = "thorough") -> dict:
         """round 6c: the optimizer grows between calls.  optimize() is called two or three times on ONE optimizer; before
         the second (third) call another clamp is added (sometimes leading a translation link) on a vertex that has not
         moved so far.  Clamp types whose constructor finds its parameters exactly (free, plane / line through the
         vertex).  Judged per call: only vertices clamped (or following a clamped leader) at the time of a call may
         move in it, quality never gets worse, every clamp / link added so far keeps its constraint."""
         kind = rng.choice(["mesh", "sketch"])
-        dims = rng.choice([[2, 2, 1], [2, 1, 2], [2, 2, 2]]) if kind == "mesh" else rng.choice([[3, 2, 0], [3, 3, 0], [2, 2, 0]])
+        dims = rng.choice([[2, 2, 1], [2, 1, 2], [2, 2, 2] if tier == "thorough" else [1, 2, 2]]) if kind == "mesh" else rng.choice([[3, 2, 0], [3, 3, 0], [2, 2, 0]])
         case: Dict[str, Any] = {"kind": kind, "dims": dims, "frame": rng.choice(list(FRAMES)), "stream": "grow"}
         lat = lattice_points(case)
         amp = 10
@@ -1122,9 +1124,9 @@ class C13(core.Check):
         return out
 
     def gen_cases(self, rng: random.Random, tier: str) -> List[dict]:
-        n = 16 if tier == "quick" else 308  # round 6b: 8 of the quick runs moved to thorough
+        n = 12 if tier == "quick" else 312  # rounds 6b / 6d: 12 of the quick runs moved to thorough
         cases = [self._gen_valid(rng, tier) for _ in range(n)]
-        cases += [self._gen_symfree(rng) for _ in range(3 if tier == "quick" else 20)]
+        cases += [self._gen_symfree(rng) for _ in range(2 if tier == "quick" else 21)]
         cases += [self._gen_overlap(rng, tier) for _ in range(3 if tier == "quick" else 31)]
         cases += [self._gen_degenerate(rng) for _ in range(3 if tier == "quick" else 20)]
         cases += [self._gen_deglink(rng) for _ in range(4 if tier == "quick" else 25)]
@@ -1136,8 +1138,8 @@ class C13(core.Check):
         for _ in range(1 if tier == "quick" else 5):
             cases += self._gen_boundary(rng, tier)
         # round 6 (drawn last: the cases above are the ones earlier rounds saw for the same seed)
-        cases += [self._gen_nearideal(rng) for _ in range(6 if tier == "quick" else 60)]
-        cases += [self._gen_grow(rng) for _ in range(3 if tier == "quick" else 40)]
+        cases += [self._gen_nearideal(rng) for _ in range(4 if tier == "quick" else 62)]
+        cases += [self._gen_grow(rng, tier) for _ in range(2 if tier == "quick" else 41)]
         cases += [self._gen_defaults(rng, tier) for _ in range(1 if tier == "quick" else 10)]
         c = self._gen_valid(rng, tier, "boundary")
         c.update({"max_iterations": 0, "report": True})
@@ -1149,7 +1151,20 @@ class C13(core.Check):
                     mi >= 1 for mi in ([c["max_iterations"]] if not c.get("calls") else [x[1] for x in c["calls"]]) if mi is not None
                 )
         cases += [self._gen_driver(rng) for _ in range(40 if tier == "quick" else 400)]
+        cases += [self._gen_foreign(rng, tier) for _ in range(4 if tier == "quick" else 40)]  # drawn last (round 6d)
         return cases
+
+    def _gen_foreign(self, rng: random.Random, tier: str) -> dict:
+        """round 6d: the clamp function raises RuntimeError in a chosen evaluation of a chosen optimize_clamp
+        call (pure harness-side wrapper of `clamp.function`, what a user-defined clamp may do).  Nothing catches it: it
+        leaves optimize() before backport.  If the chosen evaluation is never reached the case is an ordinary run."""
+        while True:
+            c = self._gen_valid(rng, tier, "foreign")
+            if c["clamps"] and c["max_iterations"] >= 1:
+                break
+        c["report"] = False
+        c["inject"] = {"solve": rng.choice([0, 0, 1, 1, 2, 3]), "eval": rng.choice([1, 2, 2, 3, 4])}
+        return c
 
     def _gen_defaults(self, rng: random.Random, tier: str) -> dict:
         """optimize() called without arguments: max_iterations, tolerance and method are the source's defaults"""
@@ -1284,6 +1299,28 @@ class C13(core.Check):
                 driver = None
                 out0 = len(buf.getvalue())
                 summary_exc = None
+                aborted = None
+                inj = case.get("inject")
+                if inj:
+                    # round 6d: user-defined clamp functions that raise RuntimeError in evaluation `eval` of the
+                    # `solve`-th optimize_clamp call (whichever clamp that call is for); harness-side only
+                    hit: Dict[str, Any] = {}
+
+                    def make_raising(orig_fn, hit=hit, inj=inj):
+                        def raising(params):
+                            cur = rec.cur
+                            if cur is not None and cur["type"] == "solve" and not hit:
+                                n_solves = sum(1 for e in rec.events if e["type"] == "solve")
+                                if n_solves - 1 == inj["solve"] and len(cur["updates"]) == inj["eval"] - 1:
+                                    hit["prm"] = rec.prmid(params)
+                                    hit["updates"] = len(cur["updates"])
+                                    raise RuntimeError("injected by the harness")
+                            return orig_fn(params)
+
+                        return raising
+
+                    for _, target, _ in sc.clamps:
+                        target.function = make_raising(target.function)
                 try:
                     run = opt.auto_optimize if case.get("auto") else opt.optimize
                     if case.get("use_defaults"):
@@ -1292,12 +1329,17 @@ class C13(core.Check):
                         driver = run(max_iterations=max_iterations, tolerance=case["tolerance"], method=method)
                 except ValueError as e:
                     raised = f"ValueError: {e}"[:200]
+                except RuntimeError as e:
+                    if "injected by the harness" not in str(e):
+                        raise
+                    aborted = dict(hit)
                 except (IndexError, ZeroDivisionError) as e:
                     # the summary block of optimize() (report=True) without iterations / with start quality 0: the
                     # model predicts it (Driver.summary); anything else of this kind is an internal error
                     if not case.get("report"):
                         raise
                     summary_exc = type(e).__name__
+                co["aborted"] = aborted
                 co["summary_exc"] = summary_exc
                 m = re.search(r"Overall improvement: (\S+) > ([^\s(]+)\((\S+), (-?\d+)%\)", buf.getvalue()[out0:])
                 co["summary"] = list(m.groups()) if m else None
@@ -1341,7 +1383,7 @@ class C13(core.Check):
                 co["events"] = rec.events
                 co["J"] = [[k[0], list(k[1]), v] for k, v in rec.J.items()]
                 per_call.append(co)
-                if raised is not None:
+                if raised is not None or aborted is not None:
                     break
         # the last call at top level (what single-call cases always had), earlier ones under "prev"
         obs.update(per_call[-1])
@@ -1403,7 +1445,7 @@ class C13(core.Check):
                 f"c13.driver {case['max_iterations']} {core.rat(case['tolerance'])} {ops} 0",
                 f"c13.reporter {idx} {core.rat(gi)} {core.rat(ji)} {r}",
             ]
-        lines = [self._request_one(case, c) for c in self._per_call(impl)]
+        lines = [self._request_abort(case, c) if c.get("aborted") else self._request_one(case, c) for c in self._per_call(impl)]
         # the driver object of every call, rebuilt from the recorded iteration qualities, with the summary block
         for c in self._per_call(impl):
             if c.get("hist") is not None and c.get("raised") is None:
@@ -1424,7 +1466,15 @@ class C13(core.Check):
             lines.append(f"c13.setup {core.rat(tol2)} " + ";".join(v3(p) for p in su["pts"]) + " " + ";".join(ops))
         return lines
 
-    def _request_one(self, case: dict, impl: Any) -> str:
+    def _request_abort(self, case: dict, impl: Any) -> str:
+        """the call ended in the injected exception: the model is asked for the state it leaves (c13.abort)"""
+        line = self._request_one(case, impl, abort_prm=impl["aborted"]["prm"]).split(" ")
+        its = self._iterations(impl)
+        at = f"{len(its) - 1}:{len(its[-1]['solves']) - 1}:{impl['aborted']['updates']}"
+        # c13.opt: pts clamps links pos lnk G J maxit:tol sched back  ->  c13.abort: … tol sched it:s:m
+        return " ".join(["c13.abort"] + line[1:8] + [core.rat(case["tolerance"]), line[9], at])
+
+    def _request_one(self, case: dict, impl: Any, abort_prm: Optional[int] = None) -> str:
         its = self._iterations(impl)
         sched = []
         for it in its:
@@ -1435,7 +1485,10 @@ class C13(core.Check):
                 ps.append(_dots(evals) + ":" + (_q(ev["grad"]) if ev["grad"] is not None else "0/1"))
             ss = []
             for ev in it["solves"]:
-                ss.append(_dots([u["prm"] for u in ev["updates"]]) + ":" + ("1" if ev["solver_raised"] else "0"))
+                evals = [u["prm"] for u in ev["updates"]]
+                if abort_prm is not None and it is its[-1] and ev is it["solves"][-1]:
+                    evals.append(abort_prm)  # the parameters of the evaluation that raised
+                ss.append(_dots(evals) + ":" + ("1" if ev["solver_raised"] else "0"))
             sched.append(";".join(ps) + "~" + ";".join(ss))
         back = "mesh" if case["kind"] == "mesh" else "sketch:" + ";".join(_dots(q) for q in impl["quads"])
         line = " ".join(
@@ -1595,7 +1648,25 @@ class C13(core.Check):
                 return f"after {what}: grid has links (leader, follower, id) {e['L']}, model {ml}"
         return None
 
+    def _compare_abort(self, case: dict, impl: Any, ans: str) -> Optional[str]:
+        if ans == "bad-op":
+            return "model rejects the c13.abort request (bad-op)"
+        fields = dict(tok.split("=", 1) for tok in ans.split(" "))
+        lst = lambda x: [int(v) for v in x[1:-1].split(",") if v]
+        if fields["reached"] != "1":
+            return "the implementation raised the injected exception, the model does not reach that evaluation: " + ans[:200]
+        if lst(fields["final"]) != impl["final"]:
+            bad = [i for i, (a, b) in enumerate(zip(lst(fields["final"]), impl["final"])) if a != b]
+            return f"grid points after the propagated exception differ at indices {bad}"
+        if lst(fields["prm"]) != impl["final_prm"]:
+            return f"clamp parameters after the propagated exception: model {lst(fields['prm'])}, implementation {impl['final_prm']}"
+        if lst(fields["back"]) != impl["back"]:
+            return f"mesh / sketch after the propagated exception: model {lst(fields['back'])} (untouched), implementation {impl['back']}"
+        return None
+
     def _compare_one(self, case: dict, impl: Any, ans: str) -> Optional[str]:
+        if impl.get("aborted"):
+            return self._compare_abort(case, impl, ans)
         if ans == "bad-op":
             return "model rejects the request (bad-op)"
         fields = dict(tok.split("=", 1) for tok in ans.split(" "))
@@ -1683,6 +1754,19 @@ class C13(core.Check):
         P1 = np.array([pts[i] for i in impl["final"]])
         if impl["q0"] is None:
             return out  # the initial grid is already degenerate: outside the property's quantifier
+        if impl.get("aborted"):
+            # an exception of the user's clamp function propagates; the property's last clause ("not left half-applied"):
+            # the mesh / sketch must be exactly what it was before the call, unclamped grid points untouched
+            if impl["back"] != impl["pts0"]:
+                bad = [i for i, (a, b) in enumerate(zip(impl["back"], impl["pts0"])) if a != b] or ["length"]
+                out.append({"site": f"optimize:exception-left-{case['kind']}-half-applied", "what": f"{case['kind']} points {bad} changed although optimize() ended in an exception of the clamp function", "observed": bad, "expected": "untouched"})
+            clamped = {idx for _, idx in impl["case_clamps"]}
+            followers = {l["follower"] for l in impl["link_data"] if l["leader"] in clamped}
+            for i in range(len(P0)):
+                if i not in clamped and i not in followers and ref[i] != impl["final"][i]:
+                    out.append({"site": "optimize:unclamped-vertex-moved", "what": f"grid point {i} moved (run ended in an exception)", "observed": P1[i].tolist(), "expected": P0[i].tolist()})
+                    break
+            return out
         if impl["raised"] is not None:
             out.append(
                 {
